@@ -39,7 +39,7 @@ func loadRepo(overlay map[string]string, tags string, patterns ...string) *Loade
 		Env:        append(os.Environ(), "GOFLAGS=-mod=mod", "GOPROXY=off", "GOSUMDB=off", "GOTOOLCHAIN=local"),
 	}
 	if len(patterns) == 0 {
-		patterns = []string{"./..."}
+		patterns = []string{"./...", "./internal/vharn", "./internal/vsym"}
 	}
 	pkgs, err := packages.Load(cfg, patterns...)
 	if err != nil {
